@@ -487,6 +487,127 @@ Proof.
   - discriminate.
 Qed.
 
+(* patterns whose binders are static: no `*` (its binders depend on the value) and every
+   alternative of an or-pattern binds names of the first one (the compiler demands the same set) *)
+Fixpoint wf_pat (p : pattern) : Prop :=
+  match p with
+  | MStar _ => False
+  | MTuple _ fs => (fix go (l : list match_field) : Prop :=
+                      match l with [] => True | MatchField _ q :: r => wf_pat q /\ go r end) fs
+  | MPartial _ fs => (fix go (l : list partial_field) : Prop :=
+                        match l with
+                        | [] => True
+                        | PartialPatternField _ (Some q) :: r => wf_pat q /\ go r
+                        | PartialPatternField _ None :: r => go r
+                        end) fs
+  | MOr ps => match ps with
+              | [] => True
+              | q0 :: _ => (fix go (l : list pattern) : Prop :=
+                              match l with [] => True | q :: r => (wf_pat q /\ incl (binders q) (binders q0)) /\ go r end) ps
+              end
+  | _ => True
+  end.
+
+Lemma bind_var_domain : forall b x v b', bind_var b x v = POk b' ->
+  exists d, b' = d ++ b /\ incl (map fst d) [x].
+Proof.
+  intros b x v b' H. unfold bind_var in H. destruct (lookup x b).
+  - apply eq_verdict_ok in H. subst. exists []. split; [reflexivity | intros y []].
+  - inversion H. exists [(x, v)]. split; [reflexivity|]. cbn. apply incl_refl.
+Qed.
+
+
+Lemma wf_or_forall : forall q0 l,
+  (fix go (l : list pattern) : Prop :=
+     match l with [] => True | q :: r => (wf_pat q /\ incl (binders q) (binders q0)) /\ go r end) l ->
+  Forall (fun q => wf_pat q /\ incl (binders q) (binders q0)) l.
+Proof.
+  intros q0 l. induction l as [|q r IHl]; intros Hw; constructor.
+  - destruct Hw as [Hq _]. exact Hq.
+  - apply IHl. destruct Hw as [_ Hr]. exact Hr.
+Qed.
+
+Lemma or_loop : forall n te outer q0 (l : list pattern),
+  Forall (fun p => wf_pat p -> forall b v b', pmatch n te outer b p v = POk b' ->
+                   exists d, b' = d ++ b /\ incl (map fst d) (binders p)) l ->
+  Forall (fun q => wf_pat q /\ incl (binders q) (binders q0)) l ->
+  forall b v b',
+  (fix go (ps : list pattern) : pres :=
+     match ps with
+     | [] => PFail
+     | q :: ps' => match pmatch n te outer b q v with
+                   | PFail => go ps'
+                   | other => other
+                   end
+     end) l = POk b' ->
+  exists d, b' = d ++ b /\ incl (map fst d) (binders q0).
+Proof.
+  intros n te outer q0 l IH Hall b v b'. induction l as [|q r IHl]; intros H; [discriminate|].
+  inversion IH as [|? ? Hq IHrest]; subst. inversion Hall as [|? ? [Hwq Hinc] Hr]; subst.
+  destruct (pmatch n te outer b q v) as [b1| | |] eqn:Hq1; try discriminate.
+  - inversion H; subst. destruct (Hq Hwq _ _ _ Hq1) as (d1 & -> & Hd1).
+    exists d1. split; [reflexivity|]. intros y Hy. apply Hinc, Hd1, Hy.
+  - apply IHl; assumption.
+Qed.
+
+Lemma pmatch_domain : forall n te outer p, wf_pat p -> forall b v b',
+  pmatch n te outer b p v = POk b' -> exists d, b' = d ++ b /\ incl (map fst d) (binders p).
+Proof.
+  intros n te outer p. induction p as [x|l|bs|name fs IH|name fs IH|name| |x|t|ps IH|t x] using pattern_ind';
+    intros Hwf b v b' H; cbn [pmatch] in H.
+  - apply bind_var_domain in H. exact H.
+  - apply eq_verdict_ok in H; subst. exists []; split; [reflexivity | intros y []].
+  - apply eq_verdict_ok in H; subst. exists []; split; [reflexivity | intros y []].
+  - destruct v as [| |vn vfs| |]; try discriminate. destruct (oatom_eqb name vn); try discriminate.
+    cbn [binders]. cbn [wf_pat] in Hwf.
+    revert b vfs Hwf H. induction IH as [|[l q] fs' Hq _ IHfs]; intros b vfs Hwf H; destruct vfs as [|[k w] ws]; try discriminate.
+    + inversion H. exists []; split; [reflexivity | intros y []].
+    + destruct (oatom_eqb l k); try discriminate. destruct Hwf as [Hwq Hwr].
+      destruct (pmatch n te outer b q w) as [b1| | |] eqn:Hq1; try discriminate.
+      destruct (Hq Hwq _ _ _ Hq1) as (d1 & -> & Hd1).
+      destruct (IHfs _ _ Hwr H) as (d2 & -> & Hd2).
+      exists (d2 ++ d1). split; [rewrite app_assoc; reflexivity|].
+      rewrite map_app. cbn [flat_map]. intros y Hy. apply in_app_or in Hy. apply in_or_app.
+      destruct Hy as [Hy | Hy]; [right; apply Hd2; exact Hy | left; apply Hd1; exact Hy].
+  - destruct v as [| |vn vfs| |]; try discriminate. destruct (name_ok name vn); try discriminate.
+    cbn [binders]. cbn [wf_pat] in Hwf.
+    revert b Hwf H. induction IH as [|[l [q|]] fs' Hq _ IHfs]; intros b Hwf H.
+    + inversion H. exists []; split; [reflexivity | intros y []].
+    + destruct (find_field l vfs) as [w|]; try discriminate. destruct Hwf as [Hwq Hwr].
+      destruct (pmatch n te outer b q w) as [b1| | |] eqn:Hq1; try discriminate.
+      destruct (Hq Hwq _ _ _ Hq1) as (d1 & -> & Hd1).
+      destruct (IHfs _ Hwr H) as (d2 & -> & Hd2).
+      exists (d2 ++ d1). split; [rewrite app_assoc; reflexivity|].
+      rewrite map_app. cbn [flat_map]. intros y Hy. apply in_app_or in Hy. apply in_or_app.
+      destruct Hy as [Hy | Hy]; [right; apply Hd2; exact Hy | left; apply Hd1; exact Hy].
+    + destruct (find_field l vfs) as [w|]; try discriminate.
+      destruct (bind_var b l w) as [b1| | |] eqn:Hq1; try discriminate.
+      destruct (bind_var_domain _ _ _ _ Hq1) as (d1 & -> & Hd1).
+      destruct (IHfs _ Hwf H) as (d2 & -> & Hd2).
+      exists (d2 ++ d1). split; [rewrite app_assoc; reflexivity|].
+      rewrite map_app. cbn [flat_map]. intros y Hy. apply in_app_or in Hy. apply in_or_app.
+      destruct Hy as [Hy | Hy]; [right; apply Hd2; exact Hy | left; apply Hd1; exact Hy].
+  - destruct Hwf.
+  - inversion H. exists []; split; [reflexivity | intros y []].
+  - destruct (lookup x outer); try discriminate. apply eq_verdict_ok in H; subst.
+    exists []; split; [reflexivity | intros y []].
+  - apply type_verdict_ok in H. inversion H. exists []; split; [reflexivity | intros y []].
+  - destruct ps as [|q0 ps0]; [cbn in H; discriminate|]. cbn [binders].
+    exact (or_loop n te outer q0 (q0 :: ps0) IH (wf_or_forall q0 (q0 :: ps0) Hwf) b v b' H).
+  - apply type_verdict_ok in H. apply bind_var_domain in H. exact H.
+Qed.
+
+(* the names a successful match adds to the scope are static binders of the pattern *)
+Theorem match_binds_only_binders : forall n c e p v e' w,
+  wf_pat p -> do_match n c e p v = Ret (vok, e') w ->
+  exists d, e' = d ++ e /\ incl (map fst d) (binders p).
+Proof.
+  intros n c e p v e' w Hwf H. apply match_verdict in H.
+  destruct H as [(_ & b & Hp & ->) | (Hr & _)]; [|discriminate].
+  destruct (pmatch_domain _ _ _ _ Hwf _ _ _ Hp) as (d & -> & Hd).
+  exists d. rewrite app_nil_r. auto.
+Qed.
+
 (* ------------------------------------------------------------------------------------------
    Non-vacuity: concrete programs (the spec's own examples with their documented results),
    evaluated by vm_compute.  Atoms: identifiers/tuple names are arbitrary numbers >= 13. *)
@@ -572,3 +693,10 @@ Example ex_fuel :
   val_of (eval_program [] 40 (prog [bindc (MIdentifier f_) [ex_countdown]; ch [int 3; var f_]])) =
   val_of (eval_program [] 400 (prog [bindc (MIdentifier f_) [ex_countdown]; ch [int 3; var f_]])).
 Proof. split; vm_compute; reflexivity. Qed.
+
+(* the binder theorem is not vacuous: `Point[x, &y]`-like pattern with a literal, a pin and an
+   or-pattern is well-formed and binds exactly `a_` *)
+Example ex_wf_pattern :
+  wf_pat (MTuple (Some A_) [MatchField None (MIdentifier a_); MatchField None (MOr [MLiteral (LInteger 1); MLiteral (LInteger 2)]); MatchField None (MReference y_)]) /\
+  binders (MTuple (Some A_) [MatchField None (MIdentifier a_); MatchField None (MOr [MLiteral (LInteger 1); MLiteral (LInteger 2)]); MatchField None (MReference y_)]) = [a_].
+Proof. split; [cbn; intuition; intros z [] | reflexivity]. Qed.
